@@ -32,6 +32,8 @@ type OrderPlan struct {
 }
 
 type C02Case struct {
+	// Big: the first (up to) three entries cycled up to this many: hundreds of matches per query word, exact ties among them
+	Big int `json:"big,omitempty"`
 	DB       []Cmd     `json:"db,omitempty"`
 	Personal []Cmd     `json:"personal,omitempty"` // merged with LoadDatabaseWithPersonal when non-empty
 	Shipped  bool      `json:"shipped,omitempty"`  // use the repository's assets/commands.yml instead of DB
@@ -97,6 +99,16 @@ func genC02(rt *rapid.T) C02Case {
 			c.Personal = genDB(rt, 5)
 		}
 		c.Query = genQuery(rt, rapid.SampledFrom([]int{1, 2, 4, 12}).Draw(rt, "qmax"))
+	}
+	if !c.Shipped && len(c.DB) > 0 && rapid.IntRange(0, 39).Draw(rt, "big") == 20 {
+		c.Big = rapid.SampledFrom([]int{140, 300, 700}).Draw(rt, "bign")
+		if len(c.DB) > 3 {
+			c.DB = c.DB[:3]
+		}
+		ws := searchableWords(c.DB[0].Command, c.DB[0].Description)
+		if len(ws) > 0 {
+			c.Query = ws[0] + " " + c.Query
+		}
 	}
 	c.Opts = genOpts(rt)
 	c.Entry = rapid.IntRange(0, len(c02Entries)-1).Draw(rt, "entry")
@@ -423,6 +435,10 @@ func runC02(c C02Case) *Outcome {
 		}
 		o.Probes["c02.shipped_db"] = 1
 	} else {
+		if c.Big > 0 {
+			c.DB = blowUp(c.DB, c.Big)
+			o.Probes["c02.big_database"] = 1
+		}
 		main = yamlOf(c.DB)
 		if len(c.Personal) > 0 {
 			personal = yamlOf(c.Personal)
